@@ -252,12 +252,20 @@ fn main() {
     }
     let n_header = evals.load(Ordering::Relaxed) - before;
 
+    // live slice
+    let mut lv = values.clone();
+    lv.push(("absent".into(), vec![], true));
+    let mut live = vec![];
+    for max in ["2.0.0", "1.0.0-rc.1", "2.0.0-rc.1", "0.9.0"] {
+        live.push(vh::slices::header_live_slice(&ctx, max, &lv, &samples));
+    }
+
     let cov = json!({
         "evaluations": evals.load(Ordering::Relaxed),
         "distinct_nontrivial": nontriv.load(Ordering::Relaxed) + n_member / 2,
         "rule": "ranges = all four kinds over the 12 version points W (semver.org precedence example + neighbours): 1+12+12+78 = 103. (1) every range x every probe in W: lookup_route on the real table {GET /p : r} and presence in openapi(_, w) vs RefRange; (2) every ordered pair of ranges: second registration refused iff RefRange::share; (3) from_until(a,b) for every (a,b) in W^2; (4) ClientSpecifiesVersionInHeader for every max in W x header states (absent | one value | same value on two lines) x values. distinct_nontrivial = ordered pairs that share a version + (range,probe) membership cases; all cases are distinct by construction.",
         "membership_evaluations": n_member, "ordered_pairs": n_pairs, "from_until_order_cases": n_order, "header_states": n_header,
-        "ranges": rs.len(), "version_points": W,
+        "ranges": rs.len(), "version_points": W, "live_slice": live,
         "exhaustive": true,
         "samples": samples.take(),
     });
